@@ -150,6 +150,7 @@ class Scheduler(object):
     self.thread_errors = []
     self.state_hashes = set()
     self.preempt_filter = preempt_filter
+    self.op_watch = ()
     self.line_watch = ()
     self.signal_enabled = None
     self.gates = []
@@ -265,6 +266,9 @@ class Scheduler(object):
     me.label = label
     if not label.startswith('L:'):
       me.last_line = None
+      if self.op_watch and any(w in me.name for w in self.op_watch):
+        # synchronisation operations of watched threads, with the virtual time at which they were reached
+        self.events.append(('op', me.name, label, self.now))
     self.steps += 1
     if self.steps > self.max_steps:
       self.failure = StepLimit('more than %d scheduling steps (livelock?) at %s' % (self.max_steps, label))
